@@ -272,8 +272,14 @@ def run_loop(ctx, pid):
     st = explore(bw, ["ans"], 0 if q else 1, sink, stats=st, name="det/budget-window")
     # default tolerances, longer runs, all base policies
     lg = [_e1job(D, "det", {"max_fun_evals": 40 + 30 * D, "complete_poll": cp}, seed, base=b) for D in (1, 2) for cp in (False, True) for b in ("F", "I", "S4", "E3")]
+    # small logger caches: the arrays grow repeatedly during the run (growth may fall on a search-only loop pass)
+    lg += [_e1job(D, m, dict({"max_fun_evals": 60 if m == "det" else 75, "cache_size": cs}, **({} if m == "det" else {"noise_final_samples": 2})), seed, base=b)
+           for D in (1, 2) for m in ("det", "decl") for cs in (5, 12, 30, 31) for b in (("F", "I") if m == "det" else ("F",))]
     st = explore(lg, ["ans"], 0, sink, stats=st, name="det/long")
     # b=2 on a window
+    # threshold ties: an improvement exactly equal to the sufficient-improvement threshold is *not* sufficient
+    st = explore([_e1job(D, "det", {"tol_mesh": 2.0**-3, "complete_poll": cp}, seed) for D in (1, 2) for cp in (False, True)], ["ans"], 1, sink, stats=st,
+                 name="det/threshold-ties", alts={"ans": ["T"], "noise": [], "fit": [], "pred": []})
     st = explore([_e1job(1, "det", {"tol_mesh": 2.0**-3}, seed)], ["ans"], 2, sink, stats=st, name="det/b2-window",
                  pos_ok=lambda kind, pos, res: pos < (10 if q else 16))
     # noisy modes: budget windows above the initial design, noise scripts
